@@ -16,7 +16,7 @@ import (
 
 // wsInflatedBound (C10.9 = C09.17 = C02.13) — fix 32ab2cd.
 func wsInflatedBound(c *core.Ctx, R string) {
-	c.Rule(R, "the websocket read limit covers what permessage-deflate inflates: websocket.message reads every data frame through readMessage (no direct ReadFrom of the frame reader), readMessage reads through io.LimitReader(message, limit+1) with limit = MaxHttpBufferSize() and reports ws.ErrReadLimit on the n > limit edge, and both places that build a websocket transport (Handshake's websocket arm, onWebSocket's upgrade arm) hand it Opts().MaxHttpBufferSize()")
+	c.Rule(R, "the websocket read limit covers what permessage-deflate inflates: websocket.message reads every data frame through readMessage (no direct ReadFrom of the frame reader), readMessage reads through io.LimitReader(message, limit+1) with the limit the connection carries (WebSocketConn.MaxPayload, written by HandleUpgrade with Opts().MaxHttpBufferSize() before the connection is handed on — the transport's own field is stored only after its constructor has started the reader), never for limit == MaxInt64, and reports ws.ErrReadLimit on the n > limit edge")
 	if m := c.Fn(R, "transports.(*websocket).message"); m != nil {
 		direct, bounded := 0, 0
 		for _, cl := range m.Calls() {
@@ -32,19 +32,43 @@ func wsInflatedBound(c *core.Ctx, R string) {
 	if rm := c.Fn(R, "transports.(*websocket).readMessage"); rm != nil {
 		info := rm.Info()
 		g := rm.Graph()
-		okLimit := false
+		okLimit, fromConn, noOverflow := false, false, false
 		var limObj types.Object
 		for _, cl := range rm.Calls() {
 			if cl.Key != "io.LimitReader" {
 				continue
 			}
-			// second argument: <limit> + 1, limit defined as w.MaxHttpBufferSize()
+			// second argument: <limit> + 1, limit read from the connection (WebSocketConn.MaxPayload — set before the
+			// reader starts, fix 56e5880) or, as first built, from the transport's MaxHttpBufferSize()
 			if be, ok := ast.Unparen(cl.Arg(1)).(*ast.BinaryExpr); ok && be.Op == token.ADD {
 				if v, isC := core.ConstInt(info, be.Y); isC && v == 1 {
-					if ce, key := rm.AsCall(be.X); ce != nil && strings.HasSuffix(key, ".MaxHttpBufferSize") {
+					src := rm.Deep(be.X)
+					if fieldOf(info, src) == "WebSocketConn.MaxPayload" {
 						okLimit = true
 						limObj = core.ObjOf(info, be.X)
+						fromConn = true
+					} else if ce, key := rm.AsCall(be.X); ce != nil && strings.HasSuffix(key, ".MaxHttpBufferSize") {
+						// the transport's own field is stored by the server only after the constructor has started the
+						// reader goroutine: a data race, and a frame read in between is not bounded (fix 56e5880)
+						limObj = core.ObjOf(info, be.X)
 					}
+					// limit+1 must not overflow: the bounded read is off the edge limit == MaxInt64 (fix ae38d27)
+					noOverflow = g.GuardedBy(cl.Loc, func(x *core.Unit, br core.Branch) int {
+						cmp, isCmp := x.BranchCmp(br)
+						if !isCmp || core.ObjOf(x.Info(), cmp.X) != limObj || limObj == nil {
+							return 0
+						}
+						if !strings.HasSuffix(selPath(cmp.Y), "MaxInt64") && !(cmp.Val != nil && cmp.Val.ExactString() == "9223372036854775807") {
+							return 0
+						}
+						switch cmp.Op {
+						case token.EQL:
+							return -1
+						case token.NEQ:
+							return 1
+						}
+						return 0
+					})
 				}
 			}
 		}
@@ -65,7 +89,12 @@ func wsInflatedBound(c *core.Ctx, R string) {
 				})
 			}
 		}
-		c.Check(R, "transports.(*websocket).readMessage/LimitReader(limit+1)∧ErrReadLimit-on-overflow", rm.Pos(), okLimit && okErr, keyf("reads through io.LimitReader(message, MaxHttpBufferSize()+1): %v; ws.ErrReadLimit on the n > limit edge: %v", okLimit, okErr))
+		c.Check(R, "transports.(*websocket).readMessage/LimitReader(limit+1)∧ErrReadLimit-on-overflow", rm.Pos(), okLimit && okErr, keyf("reads through io.LimitReader(message, limit+1) with the configured limit: %v; ws.ErrReadLimit on the n > limit edge: %v", okLimit, okErr))
+		c.Check(R, "transports.(*websocket).readMessage/limit+1-cannot-overflow", rm.Pos(), noOverflow, "the bounded read is not taken for limit == math.MaxInt64 (limit+1 would be negative and every message read as empty)")
+		if fromConn {
+			wsLimitOnConn(c, R)
+			return
+		}
 	}
 	n := 0
 	for _, key := range []string{bsHandshake, "engine.(*server).onWebSocket"} {
@@ -396,4 +425,29 @@ func jsonpNoBinary(c *core.Ctx, R string) {
 		}
 	}
 	c.Check(R, "transports.(*jsonp).Construct/SetSupportsBinary(false)-after-base-Construct", u.Pos(), ok, "no binary payload format on a script transport")
+}
+
+// wsLimitOnConn: the inflate bound travels with the connection (fix 56e5880):
+// WebSocketConn.MaxPayload is written only by HandleUpgrade's callback, with
+// Opts().MaxHttpBufferSize(), ahead of onWebSocket — i.e. before any transport
+// (whose constructor starts the reader goroutine) exists.
+func wsLimitOnConn(c *core.Ctx, R string) {
+	n := 0
+	for _, ua := range fieldAssignsAnywhere(c, "WebSocketConn.MaxPayload") {
+		n++
+		u := ua.U
+		c.Touch(u)
+		inUpgrade := strings.HasPrefix(u.Root().Key, "engine.(*server).HandleUpgrade")
+		_, key := u.AsCall(ua.Rhs)
+		fromOpt := strings.HasSuffix(key, ".MaxHttpBufferSize")
+		before := false
+		for _, cl := range u.Calls() {
+			if strings.HasSuffix(cl.Key, ".onWebSocket") && u.Graph().Dominates(ua.Loc, cl.Loc) {
+				before = true
+			}
+		}
+		c.Check(R, keyf("%s/WebSocketConn.MaxPayload=Opts().MaxHttpBufferSize()≺onWebSocket", u.Key), ua.Stmt.Pos(), inUpgrade && fromOpt && before,
+			keyf("written by HandleUpgrade: %v; from the server option: %v; before the connection is handed on: %v", inUpgrade, fromOpt, before))
+	}
+	c.Need(R, "writes of WebSocketConn.MaxPayload", n, 1)
 }
